@@ -367,6 +367,8 @@ type interp struct {
 	notes      []string
 	roundIDs   int
 	curAssign  *ast.AssignStmt
+	trace      func(s ast.Stmt, st *state)
+	binopHook  func(op token.Token, l, r AV, at ast.Node) (AV, bool)
 	callerFlds map[string]AV // fields reachable through references, visible to an inlined callee
 	lastFlds   map[string]AV // ref fields as left by the last inlined call (single-outcome calls only)
 	// inlineAll interprets every package function that is neither an intrinsic nor denied.
@@ -512,6 +514,9 @@ func (in *interp) execBlock(list []ast.Stmt, st *state) []flow {
 func (in *interp) execStmt(s ast.Stmt, st *state) []flow {
 	if !in.tick() {
 		return nil
+	}
+	if in.trace != nil {
+		in.trace(s, st)
 	}
 	switch x := s.(type) {
 	case *ast.BlockStmt:
@@ -1572,6 +1577,7 @@ func (in *interp) binopExpr(x *ast.BinaryExpr, l, r AV, st *state) AV {
 func (in *interp) coefZeroTest(e ast.Expr, st *state) (AV, bool) {
 	var obj types.Object
 	ok := true
+	limbs := map[int64]bool{}
 	var walk func(e ast.Expr)
 	walk = func(e ast.Expr) {
 		e = ast.Unparen(e)
@@ -1590,12 +1596,21 @@ func (in *interp) coefZeroTest(e ast.Expr, st *state) (AV, bool) {
 				return
 			}
 			obj = o
+			if i, isC := in.p.constInt64(x.Index); isC {
+				limbs[i] = true
+			} else {
+				ok = false
+			}
 		default:
 			ok = false
 		}
 	}
 	walk(e)
 	if !ok || obj == nil {
+		return nil, false
+	}
+	// every limb must take part: a single word being zero says nothing about the coefficient
+	if n := limbsOf(obj.Type()); n == 0 || len(limbs) != n {
 		return nil, false
 	}
 	cv, isCoef := st.vars[obj].(*avCoef)
@@ -1612,6 +1627,11 @@ func (in *interp) coefZeroTest(e ast.Expr, st *state) (AV, bool) {
 }
 
 func (in *interp) binop(op token.Token, l, r AV, at ast.Node) AV {
+	if in.binopHook != nil {
+		if v, ok := in.binopHook(op, l, r, at); ok {
+			return v
+		}
+	}
 	// booleans
 	switch op {
 	case token.EQL, token.NEQ:
